@@ -117,6 +117,14 @@ def plan(tier, seed):
     for i in range(16):
         jobs.append({'space': 'S6', 'shard': i, 'of': 16, 'weight': 30000})
     jobs.append({'space': 'S7', 'weight': 5000})
+    for i in range(len(S8_PAIRS)):
+        for first in 'AB':
+            jobs.append({'space': 'S8', 'pair': i, 'first': first,
+                         'mode': 'full', 'bound': 1, 'weight': 6000})
+            if tier != 'quick' and i < 3:
+                # two preemptions: the parse alone
+                jobs.append({'space': 'S8', 'pair': i, 'first': first,
+                             'mode': 'parse', 'bound': 2, 'weight': 60000})
     for j in jobs:
         j['tier'] = tier
     return jobs
@@ -214,6 +222,59 @@ class Ctx:
                               % (got, roles, exp),
                               {'rule': text, 'roles': roles}, exp, got, space)
         acc.outcome('sentence')
+
+
+# S8 (engine E3): two threads load MALFORMED rules at the same time (two
+# enforcers starting up in one service): halves that would make a sentence if
+# they met in one parser must each stay what they are - a non-rule
+S8_PAIRS = [
+    ('(', 'role:x or @ )'),
+    ('( @ or', 'role:x )'),
+    ('@ or', '@'),                       # B is a rule: it must stay '@'
+    ('not', 'role:nobody'),              # 'not' + a denying rule
+    ('role:nobody and', '@ or'),
+    ([['@', 'role:nobody and']], '@ )'),
+]
+
+
+def run_S8(cx, job):
+    from mc import pairs
+    ta, tb = S8_PAIRS[job['pair']]
+    texts = {'A': ta, 'B': tb}
+    P = cx.policy
+
+    def decide(text):
+        enf = world.bare_enforcer()
+        enf.set_rules(P.Rules.from_dict({'p': text}), use_conf=False)
+        return (bool(enf.enforce('p', {}, {'roles': []})),
+                bool(enf.enforce('p', {}, {'roles': ['x']})),
+                str(enf.rules['p']))
+    expected = {n: decide(texts[n]) for n in 'AB'}
+    for n in 'AB':
+        # the sequential outcome is C02's own: a non-rule denies everybody
+        if texts[n] not in ('@', 'role:nobody') and expected[n][:2] != (
+                False, False):
+            raise core.HarnessError('S8: %r alone does not deny' % texts[n])
+
+    if job['mode'] == 'parse':
+        from oslo_policy import _parser
+        enf0 = world.bare_enforcer()
+
+        def decide(text):                                   # noqa: F811
+            tree = _parser.parse_rule(text)
+            return (bool(tree({}, {'roles': []}, enf0)),
+                    bool(tree({}, {'roles': ['x']}, enf0)), str(tree))
+        expected = {n: decide(texts[n]) for n in 'AB'}
+
+    def make_bodies():
+        return {n: (lambda n=n: decide(texts[n])) for n in 'AB'}
+    n_ex = pairs.explore(cx.acc, 'S8', '%s%d' % (
+        'pair' if job['mode'] == 'full' else 'parse', job['pair']),
+                         make_bodies, expected, job['bound'],
+                         lambda n: 'rule %r' % (texts[n],),
+                         firsts=(job['first'],))
+    cx.acc.add('s8_executions', n_ex)
+    cx.acc.sample('S8', {'rules': [str(ta), str(tb)]})
 
 
 def run(job, seed):
